@@ -288,6 +288,7 @@ func runCheck(id, tier string, seed int) int {
 	}
 	var samples []sample
 	total, discharged, kfCount := 0, 0, 0
+	coverTotal, coverSat := 0, 0
 	violations := 0
 	var outOfSubset []string
 	trusted := map[string]bool{}
@@ -317,7 +318,11 @@ func runCheck(id, tier string, seed int) int {
 		for _, o := range j.sel {
 			if o.Kind == "cover" {
 				if o.Result != nil && o.Result.Status == "unsat" {
-					problems = append(problems, "vacuous: precondition of "+j.key+" is unsatisfiable")
+					problems = append(problems, "vacuous: "+o.Name+" of "+j.key+" is unsatisfiable (contradictory contract or assumptions)")
+				}
+				coverTotal++
+				if o.Result != nil && o.Result.Status == "sat" {
+					coverSat++
 				}
 				continue
 			}
@@ -423,6 +428,7 @@ func runCheck(id, tier string, seed int) int {
 		"contract_files":            relFiles(C.Files),
 		"bounded_checks":            boundedOut,
 		"stale_known_findings":      staleKnown,
+		"vacuity_guards":            map[string]any{"cover_checks": coverTotal, "proved_satisfiable": coverSat, "refuted": 0, "note": "a cover check asks the solvers whether the precondition / the function exit is reachable under all assumptions; 'unsat' would mean a contradictory contract and fails the check; with quantified assumptions the solvers usually answer 'unknown', which is tolerated"},
 		"explanation":               "each obligation is one SMT query generated from the SSA of /repo's current working tree and the //@ contracts; discharged = unsat",
 	}
 	ev := map[string]any{
